@@ -74,6 +74,7 @@ type Contract struct {
 	Properties []string
 	Trusted    bool
 	Inline     []string
+	PanicsOnly []string
 	StepProps  []string
 	Opaque     []string
 	StaleLoops []string
@@ -293,6 +294,12 @@ func parseContractFile(path string, pkgPath string) ([]*Contract, []string, erro
 			// implementations in this verification (result arbitrary, assumed not to panic)
 			for _, m := range strings.Split(rest, ",") {
 				cur.Opaque = append(cur.Opaque, strings.TrimSpace(m))
+			}
+		case "panicsonly":
+			// an explicit panic whose value has one of these types is a controlled
+			// abort (recovered by a caller; that recover is assumed, not modelled)
+			for _, m := range strings.Split(rest, ",") {
+				cur.PanicsOnly = append(cur.PanicsOnly, strings.TrimSpace(m))
 			}
 		case "uses":
 			// panic mode: calls of these functions use their ordinary (safety-verified) contracts
